@@ -61,6 +61,8 @@ class Check:
         self.replay_repeat = None
         self.died_confirms = True   # a replay that kills the process confirms a violation (not for checks that EXPECT a loud exit)
         self.scratch = tempfile.mkdtemp(prefix='verif-%s-' % pid)
+        self.rtmp = os.path.join(self.scratch, 'tmp')   # TMPDIR of native replays (removed with the scratch directory)
+        os.makedirs(self.rtmp, exist_ok=True)
 
     # ------------------------------------------------------------ running harnesses
     def run(self, group, jobs, nproc=None, bounds=None, job_timeout=None):
@@ -139,7 +141,7 @@ class Check:
             return 'replay-build-failed', path
         try:
             r = subprocess.run([tb, '-test.run', '^TestVerifReplay$', '-test.count=1'], cwd=os.path.join(REPO, pkg),
-                               env=dict(GOENV, VERIF_REPLAY=path), capture_output=True, text=True, timeout=timeout)
+                               env=dict(GOENV, VERIF_REPLAY=path, TMPDIR=self.rtmp), capture_output=True, text=True, timeout=timeout)
             out = r.stdout + r.stderr
         except subprocess.TimeoutExpired:
             return 'timeout', path
@@ -215,8 +217,9 @@ class Check:
         if coverage_extra:
             ev['coverage'].update(coverage_extra)
         ev['coverage'].update(self.extra)
-        os.makedirs(os.path.join(ROOT, 'evidence'), exist_ok=True)
-        json.dump(ev, open(os.path.join(ROOT, 'evidence', '%s.json' % self.pid), 'w'), indent=1, default=str)
+        evdir = os.environ.get('VERIF_EVIDENCE_DIR') or os.path.join(ROOT, 'evidence')
+        os.makedirs(evdir, exist_ok=True)
+        json.dump(ev, open(os.path.join(evdir, '%s.json' % self.pid), 'w'), indent=1, default=str)
         for k in self.known:
             if k['id'] in [s['id'] for s in self.known_seen]:
                 print('KNOWN-FINDING: property=%s %s [%s]' % (self.pid, k['what'], k['id']))
@@ -235,9 +238,6 @@ class Check:
         return 1 if self.violations else 0
 
     def cleanup(self):
-        import glob
-        for d in glob.glob('/tmp/verif-replay-*'):
-            shutil.rmtree(d, ignore_errors=True)
         shutil.rmtree(self.scratch, ignore_errors=True)
         shutil.rmtree(self.ovdir, ignore_errors=True)
         try:
